@@ -29,6 +29,11 @@ CONF = {
         {"module": "MC_Gang", "cfg": "MC_Gang_StrictWait.cfg", "timeout": 600},
         {"module": "MC_Gang", "cfg": "MC_Gang_LooseWaitRun.cfg", "timeout": 600},
     ],
+    "gen": [
+        {"module": "Gen_Gang", "cfg": "Gen_Gang_StrictOnce.cfg", "timeout": 600, "sample": {"quick": 3, "thorough": 1}},
+        {"module": "Gen_Gang", "cfg": "Gen_Gang_StrictWait.cfg", "timeout": 600, "sample": {"quick": 3, "thorough": 1}},
+        {"module": "Gen_Gang", "cfg": "Gen_Gang_LooseWaitRun.cfg", "timeout": 600, "sample": {"quick": 3, "thorough": 1}},
+    ],
     "go": [{"pkg": "pkg/scheduler/plugins/coscheduling/core", "test": "TestVerifC04"}],
     "trace": {"module": "GangTrace", "cfg": "Trace.cfg"},
     "signature": sig,
